@@ -35,7 +35,7 @@ ASSUMPTIONS = ["StubBrownian (stateless closed-form path) stands in for the Brow
 REAL_VS_STUB = {"real": ["sdeint, check_contract, BaseSDESolver.integrate, all solver step functions, interp",
                          "BrownianInterval (real-bm runs)"],
                 "stub": ["StubBrownian (stub-bm runs)", "RecordingBrownian proxy", "SDE zoo drift/diffusion"]}
-PROBES = ("variants_run", "via_sdeint_adjoint", "ts_dtype_differs", "on_grid_outputs", "on_grid_interior", "inside_outputs", "several_outputs_in_one_step", "ulp_before_grid",
+PROBES = ("default_bm", "euler_reference_steps", "variants_run", "via_sdeint_adjoint", "ts_dtype_differs", "on_grid_outputs", "on_grid_interior", "inside_outputs", "several_outputs_in_one_step", "ulp_before_grid",
           "ulp_after_grid", "dt_larger_than_gaps", "ts_as_list", "final_step_clipped", "horizon_on_grid", "f32", "real_bm",
           "stub_bm", "common_time_pairs")
 STATE_MEASURE = "distinct (solver, noise type, grid length, output-schedule pattern) tuples"
@@ -77,7 +77,7 @@ def gen_case(seed, tier, idx):
             "ts_dtype": rs.choice(["same", "same", "same", "float64", "float32"]),
             # options that only matter for adaptive stepping, passed to a fixed-step solve (they must not change it)
             "adaptive_only": rs.choice([None, None, {"dt_min": 0.2}, {"dt_min": 10 * dt, "rtol": 1e-2}, {"atol": 1e-9, "rtol": 0.0}]),
-            "bm": "real" if rs.random() < 0.2 else "stub", "bm_seed": rs.randrange(1 << 30), "variants": variants,
+            "bm": bm._pick(rs, [("stub", 7), ("real", 2), ("default", 1)]), "bm_seed": rs.randrange(1 << 30), "variants": variants,
             "fault_rate": bm.gen_fault_rate(st.get("faults")), "fault_seed": rs.randrange(1 << 30)}
 
 
@@ -159,6 +159,22 @@ class Runner:
         import torchsde
         case = self.case
         sde = stubs.make_sde(self.spec, case["dtype"])
+        if case["bm"] == "default":
+            # bm=None: the library builds its own BrownianInterval; its entropy comes from np.random.randint, which the
+            # entropy seam serves from the case's seed, so every variant gets the same path. No request trace here.
+            self.n_variant += 1
+            ts = list(times) if (as_list and self.tts == self.tdt) else torch.tensor(times, dtype=self.tts)
+            kw = dict(case.get("adaptive_only") or {})
+            if case["solver"]["options"]:
+                kw["options"] = dict(case["solver"]["options"])
+            try:
+                with torch.no_grad(), seams.entropy_seam(random.Random(case["bm_seed"])):
+                    fn = torchsde.sdeint_adjoint if entry == "sdeint_adjoint" else torchsde.sdeint
+                    ys = fn(sde, self.y0, ts, bm=None, method=case["solver"]["method"], dt=xf(case["dt"]), **kw)
+            except Exception as e:  # noqa
+                raise Violation(f"exception:{type(e).__name__}@{bm._where(e)}", {"variant": tag, "msg": str(e)[:200]}, tag)
+            self.log.add("variant", tag, [fx(t) for t in times], as_list, tdig(ys), "default-bm")
+            return ys, None
         rec, plan = self.make_bm()
         if plan is not None and case["fault_rate"] > 0:
             # one blackout/miss plan per variant, drawn from the case's explicit fault seed
@@ -200,7 +216,7 @@ def run_case(case, keep_log=False):
     # the interpolation weights are computed in the dtype of the time tensor, the states in the dtype of y0
     rtol = 1e-5 if (f32 or tts == torch.float32) else 1e-12
     probes["f32"] = int(f32)
-    probes["real_bm" if case["bm"] == "real" else "stub_bm"] = 1
+    probes["real_bm" if case["bm"] == "real" else "stub_bm"] = int(case["bm"] != "default")
     try:
         t0, T, dt = xf(case["t0"]), xf(case["T"]), xf(case["dt"])
         tsv = torch.tensor([t0, T], dtype=tts)
@@ -211,6 +227,10 @@ def run_case(case, keep_log=False):
         B, d = R.spec["batch"], R.spec["d"]
         # the trace must be the LoopModel grid
         model = loop_model_grid(t0, T, dt, tts)
+        no_trace = trace0 is None
+        if no_trace:
+            trace0 = list(zip(model[:-1], model[1:]))  # default Brownian motion: no proxy, the model grid is used
+            probes["default_bm"] = 1
         grid = [trace0[0][0]] + [tb for (_, tb) in trace0] if trace0 else [t0]
         for i, (ta, tb) in enumerate(trace0):
             if ta != grid[i]:
@@ -233,13 +253,33 @@ def run_case(case, keep_log=False):
             raise Violation("ys0_not_y0", {"variant": "V0"}, "V0")
         # Vall: grid states
         ysall, trace_all = R.run(grid, False, "Vall")
-        if trace_all != trace0:
+        if not no_trace and trace_all != trace0:
             raise Violation("trace_depends_on_ts", {"variant": "Vall", "len": [len(trace_all), len(trace0)]}, "Vall")
         if tuple(ysall.shape) != (len(grid), B, d):
             raise Violation("shape", {"variant": "Vall", "shape": list(ysall.shape)}, "Vall")
         G = ysall
         if not torch.equal(G[-1], ys0[-1]):
             raise Violation("common_time_differs", {"variants": ["V0", "Vall"], "t": fx(T)}, "Vall")
+        if case["solver"]["method"] == "euler" and case["bm"] == "stub":
+            # independent model of one step (Euler-Maruyama written out by hand on the zoo SDE and the stateless stub
+            # path): G_{k+1} = G_k + f(g_k, G_k) h + g(g_k, G_k) . W(g_k, g_{k+1}),  h = g_{k+1} - g_k - the clipped last step
+            # included. Catches a grid state recorded at the wrong time, which interpolation alone cannot see.
+            sde_r = stubs.make_sde(R.spec, case["dtype"])
+            stub = stubs.make_stub_brownian((B, R.spec["m"]), R.tdt, case["bm_seed"], case["solver"]["levy"])
+            nt = R.spec["noise_type"]
+            etol = 1e-4 if (f32 or tts == torch.float32) else 1e-10
+            with torch.no_grad():
+                for k in range(n):
+                    ta_, tb_ = torch.tensor(grid[k], dtype=tts), torch.tensor(grid[k + 1], dtype=tts)
+                    yk = G[k]
+                    dW = stub(grid[k], grid[k + 1])
+                    gk = sde_r.g(ta_, yk)
+                    gp = gk * dW if nt == "diagonal" else torch.bmm(gk, dW.unsqueeze(-1)).squeeze(-1)
+                    ref = yk + sde_r.f(ta_, yk) * (tb_ - ta_) + gp
+                    probes["euler_reference_steps"] += 1
+                    sc = max(bm.maxabs(ref), bm.maxabs(yk), 1.0)
+                    if bm.maxabs(ref.double() - G[k + 1].double()) > etol * sc:
+                        raise Violation("grid_state_not_euler_step", {"k": k, "of": n, "err": bm.maxabs(ref.double() - G[k + 1].double())}, "Vall")
         seen = {t0: G[0], T: G[-1]}
         gidx = {g: i for i, g in enumerate(grid)}
         pattern = []
@@ -250,7 +290,7 @@ def run_case(case, keep_log=False):
             probes["via_sdeint_adjoint"] += int(var.get("entry") == "sdeint_adjoint")
             probes["variants_run"] += 1
             probes["ts_as_list"] += int(var["as_list"])
-            if trace != trace0:
+            if not no_trace and trace != trace0:
                 k = next((i for i, (a, b) in enumerate(zip(trace, trace0)) if a != b), min(len(trace), len(trace0)))
                 raise Violation("trace_depends_on_ts", {"variant": tag, "first_diff": k, "len": [len(trace), len(trace0)]}, vi)
             if tuple(ys.shape) != (len(times), B, d) or ys.dtype != tdt:
